@@ -167,6 +167,19 @@ class GWorld(World):
     def interp(self) -> Interp:
         return Interp(self.prog, self, lib_semantics=self.impl)
 
+    def other_params(self, delta=True, phi=True):
+        d = {
+            "T": TV(E.S("T"), 0, False, "parameter T"),
+            "tau": TV(E.S("tau"), 0, False, "parameter tau"),
+            "eta": TV(E.S("eta"), 0, False, "parameter eta"),
+            "kappa": TV(E.S("kappa"), 0, False, "parameter kappa"),
+        }
+        if delta:
+            d["delta"] = TV(E.S("delta"), 0, False, "parameter delta")
+        if phi:
+            d["phi"] = TV(E.S("phi"), 0, False, "parameter phi")
+        return d
+
     # ------------------------------------------------------------ callbacks
     def iterate(self, it, v, node):
         if isinstance(v, NodeViewV):
